@@ -1398,3 +1398,85 @@ func (f *FuncCFG) regionByCall(c *ast.CallExpr) *region {
 	}
 	return nil
 }
+
+// Effects renders the state-changing statements of the (expanded) graph with resolved operands:
+// "lhs=rhs", "x++", "x--", "return a,b". Helper parameters and temporaries are looked through, so
+// the list does not depend on whether a piece of the operation lives in a helper.
+func (f *FuncCFG) Effects() []string {
+	var out []string
+	for _, b := range f.G.Blocks {
+		if !b.Live {
+			continue
+		}
+		for i, nd := range b.Nodes {
+			pt := Point{b, i}
+			switch x := nd.(type) {
+			case *ast.AssignStmt:
+				if x.Tok == token.DEFINE {
+					continue
+				}
+				for li, l := range x.Lhs {
+					rhs := ""
+					if li < len(x.Rhs) && len(x.Lhs) == len(x.Rhs) {
+						rhs = f.KeyAt(x.Rhs[li], pt)
+					} else if len(x.Rhs) == 1 {
+						rhs = f.KeyAt(x.Rhs[0], pt)
+					}
+					op := "="
+					if x.Tok != token.ASSIGN {
+						op = x.Tok.String()
+					}
+					out = append(out, f.KeyAt(l, pt)+op+rhs)
+				}
+			case *ast.IncDecStmt:
+				out = append(out, f.KeyAt(x.X, pt)+x.Tok.String())
+			case *ast.ReturnStmt:
+				var rs []string
+				for _, e := range x.Results {
+					rs = append(rs, f.KeyAt(e, pt))
+				}
+				out = append(out, "return "+strings.Join(rs, ","))
+			}
+		}
+	}
+	return out
+}
+
+// AtomCall: what a boolean/result atom stands for - result #idx of a call - written as the call
+// itself, as lo.ReturnN(call), or as a variable bound to one of the call's results.
+func (f *FuncCFG) AtomCall(e ast.Expr, pt Point) (*ast.CallExpr, int) {
+	e = ast.Unparen(e)
+	if c, ok := e.(*ast.CallExpr); ok {
+		k := rawKey(c.Fun)
+		for n := 1; n <= 3; n++ {
+			if strings.HasSuffix(k, fmt.Sprintf("Return%d", n)) && len(c.Args) == 1 {
+				if ic, ok := ast.Unparen(c.Args[0]).(*ast.CallExpr); ok {
+					return ic, n - 1
+				}
+			}
+		}
+		return c, 0
+	}
+	if id, ok := e.(*ast.Ident); ok {
+		obj := f.Info.Uses[id]
+		if obj == nil {
+			return nil, 0
+		}
+		defs, fromEntry := f.ReachingDefs(pt, obj)
+		if len(defs) == 1 && !fromEntry {
+			switch x := f.nodeAt(defs[0].At).(type) {
+			case *ast.AssignStmt:
+				if len(x.Rhs) == 1 {
+					if c, ok := ast.Unparen(x.Rhs[0]).(*ast.CallExpr); ok {
+						for i, l := range x.Lhs {
+							if objOfIdent(f.Info, l) == obj {
+								return c, i
+							}
+						}
+					}
+				}
+			}
+		}
+	}
+	return nil, 0
+}
